@@ -479,6 +479,58 @@ def targeted(rng):
     return ("deep-nesting", "struct Foo:\n  0 [+1]  UInt  x\n  let y = %s\n" % e)
 
 
+# ----------------------------------------------------------------------------
+# every `$`-keyword (regenerated from tokenizer.LITERAL_TOKEN_PATTERNS) in every expression position
+def dollar_keywords():
+    from compiler.front_end import tokenizer
+    return [t for t in tokenizer.LITERAL_TOKEN_PATTERNS if t.startswith("$")] + ["this"]
+
+
+_KW_FORMS = ["%s", "%s + 1", "%s == 3", "%s(x)", "x.%s", "%s.x"]
+
+_KW_POSITIONS = [
+    ("let", "struct Foo:\n  0 [+1]  UInt  x\n  let y = {E}\n"),
+    ("if", "struct Foo:\n  0 [+1]  UInt  x\n  if {E}:\n    1 [+1]  UInt  y\n"),
+    ("array-size", "struct Foo:\n  0 [+1]  UInt  x\n  1 [+4]  UInt:8[{E}]  y\n"),
+    ("field-size", "struct Foo:\n  0 [+1]  UInt  x\n  1 [+{E}]  UInt:8[]  y\n"),
+    ("field-start", "struct Foo:\n  0 [+1]  UInt  x\n  {E} [+1]  UInt  y\n"),
+    ("second-start", "struct Foo:\n  0 [+1]  UInt  x\n  1 [+1]  UInt  y\n  ({E}) * 2 [+1]  UInt  z\n"),
+    ("bits-size", "bits Foo:\n  0 [+4]  UInt  x\n  4 [+{E}]  UInt  y\n"),
+    ("field-attribute", "struct Foo:\n  0 [+1]  UInt  x\n    [requires: {E}]\n"),
+    ("struct-attribute", "struct Foo:\n  [requires: {E}]\n  0 [+1]  UInt  x\n"),
+    ("module-attribute", "[(cpp) namespace: {E}]\nstruct Foo:\n  0 [+1]  UInt  x\n"),
+    ("enum-value", "enum Ee:\n  AA = {E}\nstruct Foo:\n  0 [+1]  UInt  x\n"),
+    ("parameter-argument", "struct Foo:\n  0 [+1]  UInt  x\n  1 [+1]  Bar({E})  y\nstruct Bar(p: UInt:8):\n  0 [+1]  UInt  z\n"),
+    ("function-argument", "struct Foo:\n  0 [+1]  UInt  x\n  let y = $max({E}, 1)\n"),
+    ("choice-branch", "struct Foo:\n  0 [+1]  UInt  x\n  let y = x == 1 ? {E} : 2\n"),
+    ("present-argument", "struct Foo:\n  0 [+1]  UInt  x\n  let y = $present({E})\n"),
+    ("bound-argument", "struct Foo:\n  0 [+1]  UInt  x\n  let y = $upper_bound({E})\n"),
+    ("nested-condition", "struct Foo:\n  0 [+1]  UInt  x\n  if x == 1:\n    1 [+{E}]  UInt:8[]  y\n"),
+    ("type-width", "struct Foo:\n  0 [+1]  UInt:{E}  x\n"),
+]
+
+
+def keyword_position_cases():
+    """The full, seed-independent enumeration keyword x form x position (about 1700 three-line modules)."""
+    out = []
+    for kw in dollar_keywords():
+        for form in _KW_FORMS:
+            e = form % kw
+            for pos, tmpl in _KW_POSITIONS:
+                out.append(("keyword-position:%s:%s" % (pos, form.replace("%s", "K")), tmpl.replace("{E}", e)))
+    return out
+
+
+def keyword_position(rng):
+    """One random member of the enumeration, possibly wrapped once more."""
+    kw = rng.choice(dollar_keywords())
+    e = rng.choice(_KW_FORMS) % kw
+    if rng.random() < 0.3:
+        e = rng.choice(["(%s)", "%s * 2", "true ? %s : 0", "$max(%s)", "-%s", "%s && true", "%s - x"]) % e
+    pos, tmpl = rng.choice(_KW_POSITIONS)
+    return ("keyword-position:" + pos, tmpl.replace("{E}", e))
+
+
 def _expr_module_text(rng):
     from harness import gen_expr
     return gen_expr.ExprModule(rng, n_virtual=rng.randint(2, 6), depth=rng.choice([1, 2, 3]), big=rng.random() < 0.3).text()
@@ -602,8 +654,10 @@ def _generate(rng, repo):
         return grammar_derived(rng)
     if k < 0.55:
         return semantic_soup(rng)
-    if k < 0.70:
+    if k < 0.64:
         return targeted(rng)
+    if k < 0.70:
+        return keyword_position(rng)
     if k < 0.88:
         return mutated_corpus(rng, repo)
     return mutated_expr_module(rng)
